@@ -12,7 +12,7 @@ RULE = ("typed random expression trees (depth <= 6 quick / <= 10 thorough) over 
 ASSUMPTIONS = ["hardware IEEE-754 arithmetic equals Python's float arithmetic and math.fmod", "see C09 for number printing"]
 default_compare = lambda m, i: C.compare_run(m, i, line=True)
 
-PRELUDE = ('নাম ক = ৫;\nনাম খ = "পা";\nনাম গ = সত্য;\nনাম ঘ = [১, ২];\nনাম ঙ = ২.৫;\nনাম চ = []; নাম ছ = ০.১; নাম জ = ৯০০৭১৯৯২৫৪৭৪০৯৯২;\n'
+PRELUDE = ('নাম ক = ৫;\nনাম খ = "পা";\nনাম গ = সত্য;\nনাম ঘ = [১, ২];\nনাম ঙ = ২.৫;\nনাম চ = []; নাম ছ = ০.১; নাম জ = ৯০০৭১৯৯২৫৪৭৪০৯৯২; নাম শূ; নাম নথি = @{"k" -> ১};\n'
            'ফাং দ্বিগুণ(x) { ফেরত x * ২; } ফেরত;\nফাং যোগ(a, b) { ফেরত a + b; } ফেরত;\nফাং উল্টো(b) { ফেরত !b; } ফেরত;\n')
 VARS = {"ক": ("num", 5.0), "খ": ("str", "পা"), "গ": ("bool", True), "ঘ": ("list", 1, [("num", 1.0), ("num", 2.0)]),
         "ঙ": ("num", 2.5), "চ": ("list", 2, []), "ছ": ("num", 0.1), "জ": ("num", 9007199254740992.0)}
@@ -273,6 +273,40 @@ def cases(rng, tier, stats):
                     src = PRELUDE + G.render(G.toks_stmt(("print", e)), "minimal") + "\n"
                     out.append(C.Case("rounding-chain", ["RUN " + C.hx(src)], default_compare, oracle, info={"src": src, "want": want}))
                     nr += 1
+    # long flat chains (scale): 32..80 operands at one nesting level are still left-associative — a parser that rebalances or
+    # re-groups long chains (to save stack) changes the rounding
+    nl = 0
+    for n in ((33, 40, 64, 80) if tier != "thorough" else range(30, 140, 7)):
+        for op, x in (("+", G.num("0.1")), ("+", G.var("ছ")), ("-", G.num("0.1")), ("*", G.num("1.1")), ("/", G.num("1.1"))):
+            e = x
+            for i in range(n - 1):
+                e = G.bin_(op, e, G.num("0.1") if op in "+-" else G.num("1.1"))
+            big = G.var("জ")
+            for i in range(n - 1):
+                big = G.bin_("+", big, G.num(1))
+            for ee in (e, big) if op == "+" else (e,):
+                want = render_val(Eval().ev(ee))
+                src = PRELUDE + G.render(G.toks_stmt(("print", ee)), "minimal") + "\n"
+                out.append(C.Case("long-chain", ["RUN " + C.hx(src)], default_compare, oracle, info={"src": src[-200:], "want": want, "operands": n}))
+                nl += 1
+    # the complete operator x operand-type table (13 binary operators x 7 x 7 runtime types, 2 unary x 7): which cells
+    # evaluate and which are type errors is a finite table — enumerated against the model, whose table is proved (C01.*_table)
+    tvals = [G.num(3), G.b(True), G.s("ক"), G.var("ঘ"), G.var("নথি"), G.var("দ্বিগুণ"), G.var("শূ")]
+    nt = 0
+    for op in ops:
+        for a in tvals:
+            for b_ in tvals:
+                e = G.bin_(op, a, b_)
+                src = PRELUDE + G.render(G.toks_stmt(("print", G.bin_("==", G.grp(e), G.grp(e)))), "minimal") + "\n"
+                out.append(C.Case("type-table", ["RUN " + C.hx(src)], default_compare, oracle, info={"src": src[-120:], "want": None}))
+                nt += 1
+    for op in ("-", "!"):
+        for a in tvals:
+            src = PRELUDE + G.render(G.toks_stmt(("print", G.bin_("==", G.un(op, a), G.un(op, a)))), "minimal") + "\n"
+            out.append(C.Case("type-table", ["RUN " + C.hx(src)], default_compare, oracle, info={"src": src[-120:], "want": None}))
+            nt += 1
+    stats["type_table_cells"] = nt
+    stats["long_chains"] = nl
     stats["rounding_chains"] = nr
     stats["outcomes"] = hist
     stats["operators_per_tree"] = ops_hist
